@@ -11,6 +11,7 @@ CONSTANTS
   PosArgs <- T_PosArgs
   Back = 2
   AsFoundSetBits = FALSE
+  PosCount = "per_position"
 VIEW NoHist
 INVARIANT CountInv
 INVARIANT ReadInv
